@@ -6,6 +6,7 @@ from driver_common import main
 
 BASE = datetime.datetime(2020, 2, 27, 0, 0, 0)   # window grid crosses Feb 29 (leap day) and a month boundary
 _cache = {}
+_nbuckets = [0]
 
 
 def at(us):
@@ -17,7 +18,8 @@ def populated(times, prefix):
     if key in _cache:
         return _cache[key]
     s3c = fake_s3.install()
-    bucket = 'b%d' % len(_cache)
+    _nbuckets[0] += 1
+    bucket = 'b%d' % _nbuckets[0]   # never reuse a bucket name: the fake stores are global
     cas = s3c.S3TapeCassette(bucket, key_prefix=prefix, read_only=False)
     ids = {}
     for i, t in enumerate(times):
@@ -33,6 +35,7 @@ def populated(times, prefix):
             cas.save_recording(d)
     if len(_cache) > 8:
         _cache.clear()
+        fake_s3.reset()
     _cache[key] = (cas, ids)
     return cas, ids
 
